@@ -7,6 +7,10 @@ package linux
 //vc:only[C11] os/exec.Command in (*State).putScp
 
 //vc:func (*State).loginEnable
+// the text is an answer / a shell command, not one of the two Cisco mode commands
+//vc:  hypothesis[C11] pass != "configure terminal" && pass != "end"
+//vc:  requires[C11] @notInConfMode !confMode
+//vc:  ensures[C11] @leavesConfMode !confMode
 //vc:  requires[C11] !isCompareRun || pass == loginPass
 //vc:func (*State).ApplyCommands
 //vc:  requires[C11] !isCompareRun
@@ -37,6 +41,8 @@ package linux
 //vc:  requires[C11] !isCompareRun
 
 //vc:func (*State).checkDeviceName
+//vc:  requires[C11] @notInConfMode !confMode
+//vc:  ensures[C11] @leavesConfMode !confMode
 //vc:  set nameChecked = true
 //vc:  set checkedName = name
 //vc:  ensures[C06] @reportedNameEqualsExpected name == strings.TrimSuffix(lastOutput, "\n")
@@ -44,11 +50,17 @@ package linux
 
 // /etc/issue is searched for the configured text; nothing configured = check skipped.
 //vc:func (*State).checkBanner
+// the text is an answer / a shell command, not one of the two Cisco mode commands
+//vc:  assume at "lines := s.conn.GetCmdOutput(" arg1 != "configure terminal" && arg1 != "end"
+//vc:  requires[C11] @notInConfMode !confMode
+//vc:  ensures[C11] @leavesConfMode !confMode
 //vc:  set markerMissing = cfg.CheckBanner != nil && len(lastOutput) == 0
 //vc:  ensures[C06] @bannerMissingRecorded markerMissing ==> len(s.errUnmanaged) > 0
 //vc:  ensures[C06] @bannerCheckSkippedIfUnconfigured cfg.CheckBanner == nil ==> !markerMissing
 
 //vc:func (*State).LoadDevice
+//vc:  requires[C11] @notInConfMode !confMode
+//vc:  ensures[C11] @leavesConfMode !confMode
 //vc:  requires[C06] !nameChecked
 //vc:  ensures[C06] @hostnameVerified err == nil ==> nameChecked && checkedName == path.Base(spocFile)
 //vc:  ensures[C06] @missingBannerRecorded err == nil ==> (markerMissing ==> len(s.errUnmanaged) > 0)
